@@ -160,7 +160,8 @@ func (p *Processor) ChargingDataCreate(
 
 	consumerId := chargingData.NfConsumerIdentification.NFName
 	if !chargingData.OneTimeEvent {
-		chargingSessionId = ueId + consumerId + strconv.Itoa(int(self.LocalRecordSequenceNumber))
+		// the counter is delimited: "smf1"+"2" and "smf"+"12" must not yield the same reference
+		chargingSessionId = ueId + consumerId + "-" + strconv.Itoa(int(self.LocalRecordSequenceNumber))
 	}
 	cdr, err := p.OpenCDR(chargingData, ue, chargingSessionId, false)
 	if err != nil {
